@@ -576,7 +576,26 @@ func (l *layout) prepared(gen int) (func() error, func(), error) {
 				_, _ = w.Write(data[:len(data)/2])
 				return // the server closes the connection: the client sees an unexpected EOF
 			}
-			_, _ = w.Write(data)
+			if len(data) <= 64<<10 {
+				_, _ = w.Write(data)
+				return
+			}
+			// a large body is sent in paced 32 KiB pieces, so that the client finds one piece per read and
+			// the sequence of its write calls is the same in every run (crash points are counted per call)
+			fl, _ := w.(http.Flusher)
+			for off := 0; off < len(data); off += 32 << 10 {
+				end := off + 32<<10
+				if end > len(data) {
+					end = len(data)
+				}
+				if _, err := w.Write(data[off:end]); err != nil {
+					return
+				}
+				if fl != nil {
+					fl.Flush()
+				}
+				time.Sleep(time.Millisecond)
+			}
 		})}
 		go func() { _ = srv.Serve(ln) }()
 		reg := &updater.ResourceRegistry{Name: "verif", Online: true, UpdateURLs: []string{"http://" + ln.Addr().String()}}
@@ -802,6 +821,9 @@ func (l *layout) convert(logPath string) (*convResult, error) {
 	sc.Buffer(make([]byte, 1<<20), 1<<26)
 	handle := func(c call) {
 		isMain := c.pid == mainPid
+		if strings.Contains(c.ret, "(INJECTED)") {
+			res.injected = true
+		}
 		k := 0
 		if isMain {
 			counts[c.name]++
@@ -832,7 +854,6 @@ func (l *layout) convert(logPath string) (*convResult, error) {
 			res.foreign++
 		}
 		if strings.Contains(c.ret, "(INJECTED)") {
-			res.injected = true
 			ev["injected"] = true
 		}
 		res.events = append(res.events, ev)
